@@ -1,6 +1,7 @@
 """Seeded, state-aware step generator (swarm style: every run draws its own
 configuration, operation mix, fault kinds and time-step distribution)."""
 import copy
+import json
 
 from .seams import make_rng
 from .spec import EXPIRY, PERIOD
@@ -41,10 +42,10 @@ def profile(**over):
 
 PROFILES = {
     "default": profile(),
-    "C01": profile(unicode_p=0.3, literal_ids=2,
+    "C01": profile(unicode_p=0.3, literal_ids=2, share_ids_p=0.06,
                    w={"add": 14, "open": 10, "drop": 4, "reconnect": 5, "adv_phase": 1.2, "adv_long": 0.8,
                       "restart": 1.5, "kill": 0.6, "close": 6}),
-    "C02": profile(nsides=(2, 3), autoping_p=0.4, names=2, literal_ids=1, napps=(1, 2),
+    "C02": profile(nsides=(2, 3), autoping_p=0.4, names=2, literal_ids=1, napps=(1, 2), share_ids_p=0.06,
                    w={"add": 14, "open": 10, "connect": 10, "adv_sweep": 3, "restart": 2.0, "kill": 0.6,
                       "stall": 0.6, "reconnect": 5, "close": 3, "release": 2, "persona": 1, "split": 2.0}),
     "C03": profile(names=3, w={"claim": 14, "allocate": 4, "release": 8, "restart": 1.5, "reconnect": 4,
@@ -68,7 +69,7 @@ PROFILES = {
     "C12": profile(autoping_p=0.5, steps=(12, 50), names=3,
                    w={"adv_phase": 5, "adv_sweep": 5, "adv_min": 4, "adv_long": 1.5, "stall": 0.8, "add": 8,
                       "open": 8, "restart": 1.0, "kill": 0.4, "drop": 3, "jump": 0.3, "close": 2, "release": 2, "split": 1.0}),
-    "C13": profile(quiesce_p=1.0, steps=(8, 40), jumps=[0.5, 30.0, 700.0, 3600.0],
+    "C13": profile(quiesce_p=1.0, steps=(8, 40), jumps=[0.5, 30.0, 700.0, 3600.0], share_ids_p=0.08,
                    w={"dbfault": 0.8, "jump": 0.3, "adv_sweep": 2.5, "adv_long": 1.0, "third": 1.5, "reconnect": 4, "resend": 2,
                       "drop": 4, "close": 6}),
     "C15": profile(usage_p=1.0, nsides=(2, 4), steps=(10, 45),
@@ -515,7 +516,9 @@ class Gen(object):
         out = []
         for st in steps:
             if (out and st["op"] == "send" and out[-1]["op"] in ("send", "batch") and out[-1]["c"] == st["c"]
-                    and "type" in st["m"] and (out[-1]["op"] == "batch" or "type" in out[-1]["m"])):
+                    and "type" in st["m"] and (out[-1]["op"] == "batch" or "type" in out[-1]["m"])
+                    and '"ref"' not in json.dumps(st["m"])):
+                # (a value the server has yet to tell cannot travel in the same segment)
                 prev = out[-1]
                 if prev["op"] == "send":
                     prev = {"op": "batch", "c": prev["c"], "ms": [prev["m"]]}
